@@ -534,6 +534,29 @@ def misc_cases(rng):
     yield 'toDict-value', '$c.toDict($ mod 3, $ * 2)', v, lambda: {x % 3: x * 2 for x in lst}, False
     yield 'member-projection', '$c.select({a => $, b => [{a => $ + 1}]}).a', v, lambda: list(lst), False
     yield 'member-projection-nested', '$c.select({b => [{a => $ + 1}, {a => 0}]}).b.a', v, lambda: [[x + 1, 0] for x in lst], False
+    # host-owned python sets in context variables (never converted): toSet() makes yaql sets of them
+    sv = {'s': {1, k + 20}, 't': {k + 20, 3}, 'c': tuple(lst)}
+    yield 'raw-set-toSet-union', '$s.toSet() + $t.toSet()', sv, lambda: {1, k + 20, 3}, True
+    yield 'raw-set-toSet-union-len', '($s.toSet() + [%d, 7].toSet()).len()' % (k + 20), sv, lambda: 3, False
+    yield 'raw-set-toSet-set-of-sets', '[$s.toSet(), $t.toSet(), $s.toSet()].toSet().len()', sv, lambda: 2, False
+    yield 'raw-set-toSet-groupBy-key', '[$s, $t, $s].groupBy($.toSet()).len()', sv, lambda: 2, False
+    yield 'raw-set-toSet-dict-key', 'dict($s.toSet() => x).len()', sv, lambda: 1, False
+    yield 'raw-set-toSet-distinct', '[$s, $t, $s].select($.toSet()).distinct().len()', sv, lambda: 2, False
+    # ordering keys that are equal for yaql without being equal (or hashing equal) for python: the same instant as a
+    # naive (UTC) host datetime and as a zone-aware one; 1 / 1.0 / true-free numeric ties
+    import datetime as _dt
+    t0 = _dt.datetime(2021, 3, 4, 5, 6, 7) + _dt.timedelta(days=k)
+    aw = lambda t, h: (t + _dt.timedelta(hours=h)).replace(tzinfo=_dt.timezone(_dt.timedelta(hours=h)))
+    rows = [{'at': t0, 'n': 3}, {'at': aw(t0, 2), 'n': 1}, {'at': aw(t0 + _dt.timedelta(hours=1), -3), 'n': 0}, {'at': t0, 'n': 2},
+            {'at': aw(t0, -5), 'n': 4}]
+    rv = {'rows': rows, 'c': tuple(lst)}
+    yield 'orderBy-thenBy-same-instant-keys', '$rows.orderBy($.at).thenBy($.n).select($.n)', rv, lambda: [1, 2, 3, 4, 0], False
+    yield 'orderBy-stable-same-instant-keys', '$rows.orderBy($.at).select($.n)', rv, lambda: [3, 1, 2, 4, 0], False
+    yield 'orderByDescending-thenBy-same-instant-keys', '$rows.orderByDescending($.at).thenBy($.n).select($.n)', rv, lambda: [0, 1, 2, 3, 4], False
+    yield 'orderByDescending-thenByDescending-same-instant-keys', '$rows.orderByDescending($.at).thenByDescending($.n).select($.n)', rv, (
+        lambda: [0, 4, 3, 2, 1]), False
+    nrows = [{'at': 1, 'n': 3}, {'at': 1.0, 'n': 1}, {'at': 2, 'n': 0}, {'at': 1, 'n': 2}]
+    yield 'orderBy-thenBy-int-float-ties', '$rows.orderBy($.at).thenBy($.n).select($.n)', {'rows': nrows, 'c': tuple(lst)}, lambda: [1, 2, 3, 0], False
     # flatten: the same sub-collection (one object, or equal ones) may occur several times and at several depths
     shared = [k, k + 1]
     hv = {'h': [shared, [shared, 3], shared, [], [[]], ()], 'c': tuple(lst)}
@@ -764,7 +787,9 @@ def _dicts(spec, mon, rec, rng):
     for i in range(spec['count']):
         for gen in (dict_cases, misc_cases):
             for name, text, vars_, thunk, unordered in gen(rng):
-                real = {k: yutils.convert_input_data(v) if not isinstance(v, frozenset) else v for k, v in vars_.items()}
+                # (context variables are the host's own objects: cases named raw-* hand them over as they are)
+                real = {k: yutils.convert_input_data(v) if not (isinstance(v, frozenset) or name.startswith('raw-')) else v
+                        for k, v in vars_.items()}
                 desc = repr(vars_)
                 rec.case((text, desc), nontrivial=True)
                 mon.compare(name, text, real, thunk, unordered, desc,
